@@ -328,7 +328,17 @@ class Scheduler:
         self.line_points += 1
         task.lines += 1
         task.dp += 1
-        if task.cancel_at_line is not None and task.lines == task.cancel_at_line:
+        hit = False
+        if task.cancel_at_line is not None:
+            cf = getattr(task, "cancel_focus", None)
+            if cf is None:
+                hit = task.lines == task.cancel_at_line
+            elif cf in frame.f_code.co_filename:
+                # the n-th line executed inside the focus file(s): lands the fault in code that runs late or rarely
+                # (output formatting, a dialect mixin) without having to guess its distance from the start of the call
+                task.focus_lines = getattr(task, "focus_lines", 0) + 1
+                hit = task.focus_lines == task.cancel_at_line
+        if hit:
             task.cancel_at_line = None
             self.on_event("cancel_line", task.tid, task.lines)
             exc = getattr(task, "cancel_exc", None)
